@@ -3,12 +3,17 @@
   Property theorems only; lemmas live in Proofs/Pump.lean and Proofs/Dispatch.lean, the models in
   HapModel/Pump.lean (event pump of HAPServerProtocol) and HapModel/Dispatch.lean.
 
-  Statement split (DESIGN §3 C19): the theorems below hold for EVERY behaviour of h11 (any state
-  type, any event sequence, any failing `send`/`start_next_cycle`, any `our_state`), every
-  `urlparse`, every handler body and every amount of loop fuel.  That h11 turns bytes into a
+  Statement split (DESIGN §3 C19): the theorems of the first part hold for EVERY behaviour of h11
+  (any state type, any event sequence, any failing `send`/`start_next_cycle`, any `our_state`),
+  every `urlparse`, every handler body and every amount of loop fuel.  That h11 turns bytes into a
   sensible event sequence is library behaviour: exercised by the harness, not proved.
+  The second part (`C19_callbacks_*`) covers ALL callbacks of a connection object — the delayed
+  response included — over arbitrary callback histories, for every h11 that follows its documented
+  connection state machine (`H11Contract`: decidable per-call relations, evaluated on every recorded
+  call of the real h11 in the differential run) and refuses no send that machine permits.
 -/
 import Proofs.Pump
+import Proofs.PumpContract
 import Proofs.Dispatch
 import HapModel.Gen.Routes
 namespace Hap.Http
@@ -114,12 +119,11 @@ theorem C19_closed_unregistered (I : H11 H) (routes : List Route) (P : Params σ
     (dataReceived I (dispOk routes P) td dec fuel c data).1.registered = false :=
   (C19_one_response I routes P td dec fuel c data h).1.reg
 
-/-- PARTIAL (delayed responses). `_handle_response_ready` calls `send_response` outside any `try`:
+/-- For EVERY h11 (no contract): `_handle_response_ready` calls `send_response` outside any `try`, so
     the callback is safe exactly when h11 accepts the three sends. If it does, nothing escapes and
-    the accounting invariant is kept; if h11 raises `LocalProtocolError` there, it propagates out of
-    the done-callback. Not proved: that h11 cannot raise at that point (it depends on h11's state
-    machine: our side is still in SEND_RESPONSE unless the connection was closed, which the
-    callback tests) — exercised by the harness instead. -/
+    the accounting invariant is kept; on a closing connection nothing is sent. That h11 does accept
+    them is `C19_callbacks_no_escape` (under the state-machine contract); that SOME hypothesis on
+    h11 is needed is `C19_ready_needs_contract`. -/
 theorem C19_ready_partial (I : H11 H) (c : Conn H σ) (res : Except Exn Bytes) (h : Acct c) :
     ((responseReady I c res).2 = true → Acct (responseReady I c res).1) ∧
     (c.closing = true → (responseReady I c res).2 = true) := by
@@ -128,6 +132,69 @@ theorem C19_ready_partial (I : H11 H) (c : Conn H σ) (res : Except Exn Bytes) (
   cases c.pending with
   | none => rfl
   | some r => simp [hc]
+
+/-! ### every callback, every history — under h11's documented state machine -/
+
+/-- A fresh connection object on a fresh parser (IDLE / IDLE) is in step with it. -/
+theorem C19_init_sync (ours theirs : H → HState) (h : H) (w : World σ)
+    (ho : ours h = .idle) (ht : theirs h = .idle) : Sync ours theirs ({ h := h, w := w } : Conn H σ) :=
+  Or.inr ⟨fun e => by simp [ht] at e, fun _ => ho, fun e => by simp at e, rfl⟩
+
+/-- NO EXCEPTION ESCAPES ANY CALLBACK, over a whole life of a connection object: any interleaving
+    of `data_received` (any bytes, any decrypt outcome, any loop fuel), completions of the delayed
+    snapshot task (result or exception) and `connection_lost`; every `urlparse`, handler body,
+    teardown; every h11 that follows its connection state machine (`H11Contract`) and refuses no
+    send the machine permits. The delayed-response callback is covered because the pump keeps
+    `Sync`: while a delayed response is outstanding and the transport is not closing, our side of
+    the parser is still in SEND_RESPONSE. -/
+theorem C19_callbacks_no_escape (I : H11 H) (ours theirs : H → HState) (hC : H11Contract I ours theirs)
+    (hF : NoFramingRefusal I ours) (routes : List Route) (P : Params σ) (td : Teardown σ)
+    (onLost : World σ → World σ) (cbs : List Callback) (h : H) (w : World σ)
+    (ho : ours h = .idle) (ht : theirs h = .idle) :
+    ∀ o ∈ (runCallbacks I (dispOk routes P) td onLost { h := h, w := w } cbs).2, ∀ e, o ≠ .esc e :=
+  (runCallbacks_sync hC _ (dispOk_total routes P) td onLost hF cbs _ (C19_init_sync ours theirs h w ho ht)).2
+
+/-- … and exactly one response per request, in order, or closed — now without side conditions:
+    at the end of any such history the accounting invariant holds, h11 never delivered a message
+    while a delayed response was outstanding, and if the connection is not closing the requests
+    answered so far followed by the outstanding one are exactly 0,1,…,eoms-1, one write each. -/
+theorem C19_callbacks_one_response (I : H11 H) (ours theirs : H → HState) (hC : H11Contract I ours theirs)
+    (hF : NoFramingRefusal I ours) (routes : List Route) (P : Params σ) (td : Teardown σ)
+    (onLost : World σ → World σ) (cbs : List Callback) (h : H) (w : World σ)
+    (ho : ours h = .idle) (ht : theirs h = .idle) :
+    let c' := (runCallbacks I (dispOk routes P) td onLost { h := h, w := w } cbs).1
+    Acct c' ∧
+    (c'.closing = false →
+      c'.overlapped = false ∧
+      c'.answered ++ c'.pendingId.toList = List.range c'.eoms ∧
+      (c'.out.filter Out.isWrite).length = c'.answered.length) := by
+  obtain ⟨hS, hne⟩ := runCallbacks_sync hC _ (dispOk_total routes P) td onLost hF cbs _
+    (C19_init_sync (σ := σ) ours theirs h w ho ht)
+  have hA := runCallbacks_acct I _ td onLost cbs _ (C19_init_acct h w) hne
+  refine ⟨hA, fun hc => ?_⟩
+  have hov : (runCallbacks I (dispOk routes P) td onLost { h := h, w := w } cbs).1.overlapped = false := by
+    rcases hS with h1 | ⟨_, _, _, h4⟩
+    · rw [hc] at h1; cases h1
+    · exact h4
+  refine ⟨hov, ?_, hA.count⟩
+  rcases hA.order with h1 | h1 | h1
+  · rw [hc] at h1; cases h1
+  · rw [hov] at h1; cases h1
+  · exact h1
+
+/-- the full statement for an UNCONSTRAINED parser: "the delayed-response callback lets nothing out" -/
+def C19_ready_statement : Prop :=
+  ∀ (I : H11 (List Ev)) (c : Conn (List Ev) Nat) (res : Except Exn Bytes), (responseReady I c res).2 = true
+
+/-- It is false: a parser that refuses the send makes `h11.LocalProtocolError` propagate out of the
+    done-callback. Some hypothesis on h11 is necessary; `H11Contract` + `NoFramingRefusal` suffices. -/
+theorem C19_ready_needs_contract : ¬ C19_ready_statement := by
+  intro h
+  have := h { scriptedH11 with send := fun h _ => (h, none) }
+    { h := [], w := { st := 0, verified := true, clientUuid := some 1 }, pending := some { status := 200 },
+      pendingId := some 0 } (.ok [])
+  revert this
+  decide
 
 /-! ### the dispatch before the repair lets exceptions out of `data_received` -/
 
@@ -179,5 +246,47 @@ example : FailsEarly Gen.routes demoParams { st := 0, verified := false, clientU
     (some reqBadHeader) [] := by
   have h : resolve Gen.routes demoParams (some reqBadHeader) [] = .error .unicodeDecode := rfl
   simp [FailsEarly, h]
+
+/-- `H11Contract` and `NoFramingRefusal` are satisfiable (the small executable h11 of
+    HapModel/Pump.lean meets both: `miniH11_contract`, `miniH11_noFramingRefusal`), and on it a
+    delayed response really is outstanding across callbacks: a verified `POST /resource` whose
+    handler attaches a task is parked, answered by the done-callback, and nothing escapes; -/
+def snapParams : Params Nat :=
+  { urlparse := fun p => .ok p, isAdmin := fun _ _ => true,
+    body := fun _ w _ => ({ w with st := w.st + 1 }, { status := 200, task := true }, none) }
+
+def postResource : Req := { method := asc "POST", target := asc "/resource", headers := [] }
+
+def miniConn (evs : List Ev) : Conn Mini Nat :=
+  { h := { evs := evs }, w := { st := 0, verified := true, clientUuid := some 1 } }
+
+example :
+    let x := runCallbacks miniH11 (dispOk Gen.routes snapParams) noTeardown id
+      (miniConn [.request postResource, .endOfMessage]) [.data [] (fun b => some b) 10, .ready (.ok (asc "JPEG"))]
+    x.2 = [.done, .done] ∧ x.1.answered = [0] ∧ x.1.pending = none ∧ x.1.closing = false := by decide
+
+/-- … after the first callback the response is outstanding and our side is in SEND_RESPONSE; -/
+example :
+    let c := (dataReceived miniH11 (dispOk Gen.routes snapParams) noTeardown (fun b => some b) 10
+      (miniConn [.request postResource, .endOfMessage]) []).1
+    c.pending.isSome = true ∧ c.h.o = .sendResponse ∧ c.h.t = .done ∧ c.out = [] := by decide
+
+/-- … and a request pipelined behind it makes `start_next_cycle` fail: the pump closes, the
+    done-callback then sends nothing (the transport is closing). -/
+example :
+    let x := runCallbacks miniH11 (dispOk Gen.routes snapParams) noTeardown id
+      (miniConn [.request postResource, .endOfMessage, .paused, .request postResource, .endOfMessage])
+      [.data [] (fun b => some b) 10, .ready (.ok (asc "JPEG"))]
+    x.2 = [.done, .done] ∧ x.1.closing = true ∧ x.1.answered = [] ∧ x.1.overlapped = false := by decide
+
+/-- the upgrade step: a response carrying a session key with plaintext still in the parser
+    (`trailing_data` non-empty) closes the connection on a FRESH parser; the smuggled request is
+    never dispatched (the body ran once, for the pair-verify request only) -/
+example :
+    let P : Params Nat := { snapParams with body := fun _ w _ => ({ w with st := w.st + 1 }, { status := 200, sharedKey := true }, none) }
+    let pv : Req := { method := asc "POST", target := asc "/pair-verify", headers := [] }
+    let c' := (dataReceived scriptedH11 (dispOk Gen.routes P) noTeardown (fun b => some b) 10
+      (demoConn [.request pv, .endOfMessage, .request reqBadTarget, .endOfMessage]) []).1
+    c'.closing = true ∧ c'.encrypted = true ∧ c'.h = [] ∧ c'.w.st = 1 ∧ c'.answered = [0] := by decide
 
 end Hap.Http
